@@ -123,7 +123,7 @@ class RectilinearGrid(StructuredGrid):
         crs=None,
     ):
         # at most 3 axes
-        self._axes = [np.asarray(np.atleast_1d(ax), dtype=float) for ax in axes[:3]]
+        self._axes = [np.array(np.atleast_1d(ax), dtype=float) for ax in axes[:3]]
         # all axes made increasing
         self._axes_increase = check_axes_monotonicity(self.axes)
         self._dim = len(self.dims)
